@@ -117,8 +117,15 @@ def main():
                               {"traceback": traceback.format_exc()[-1500:], "last_samples": ctx.samples[-2:]})
             else:
                 raise
-        except (core.HarnessError, core.ModelError):
+        except core.HarnessError:
             raise
+        except core.ModelError as e:
+            # the driver refused a request built from the implementation's outputs (wrong number of entries, a shape the model
+            # does not have): on the unchanged tree every check handles the refusals it can meet; an unhandled one means that
+            # the implementation returned something of a different shape / domain than the model - a finding, not a crash
+            ctx.violation("model-refused:" + str(getattr(e, "ans", e))[:60].replace(" ", "_"),
+                          "the executable model refused a request assembled from the implementation's outputs (shape / domain mismatch): " + str(getattr(e, "ans", e))[:200],
+                          {"traceback": traceback.format_exc()[-2500:], "last_samples": ctx.samples[-2:]})
         except Exception as e:  # noqa: BLE001
             # safety net: an exception raised *inside the implementation* (innermost non-JAX frame in the probdiffeq package)
             # for an input on which the unchanged tree returns a value is a behavioural difference, hence a finding with
